@@ -340,7 +340,7 @@ def plan_C14(q, seed):
     return {
         "jobs": jobs,
         "rule": "around every clone and drop of a handle to an object whose ledger row and column are empty (never adopted, fully unadopted again, or merely stored inside adopted objects) the trace-invocation counter (hook H3) and MonAlloc's library-origin allocation counter are sampled at call and at return (or at the first destructor start: work done by user destructors is not charged); both deltas must be zero. Non-trivial = at least one such window was measured; distinct = distinct operation sequences",
-        "require": {"stats.c14_obs": 100000},
+        "require": {"stats.c14_obs": 100000, "stats.c14_after_unadopt_obs": 1000},
     }
 
 
